@@ -799,7 +799,8 @@ func (ctx Ctx) callExpr(s *ast.CallExpr) coq.Expr {
 	} else {
 		if signature, ok := ctx.typeOf(s.Fun).(*types.Signature); ok {
 			for j := 0; j < signature.Params().Len(); j++ {
-				if _, ok := signature.Params().At(j).Type().Underlying().(*types.Interface); ok {
+				// a value passed as interface{} needs no method table
+				if iface, ok := signature.Params().At(j).Type().Underlying().(*types.Interface); ok && !iface.Empty() {
 					interfaceName := signature.Params().At(j).Type().String()
 					structName := ctx.typeOf(s.Args[0]).String()
 					interfaceName = unqualifyName(interfaceName)
